@@ -81,9 +81,18 @@ def remove_case(before, specifier, after, outcome):
     return inp, exp
 
 
-def ili_case(before, lines, after, outcome):
-    """lines: the ILI file as a list of lists of tab-separated fields (header first)"""
+def ili_case_lines(before, lines, after, outcome):
+    """lines: the ILI file as a list of lists of tab-separated fields (header first) — input of Model/Add.v run_add_ili (used
+    for the recorded samples)"""
     inp = [project_db(before), [[f for f in ln] for ln in lines]]
+    exp = [1, project_db(after)] if outcome == 'ok' else ([-1] if outcome == 'WnError' else [-5])
+    return inp, exp
+
+
+def ili_case(before, text, after, outcome):
+    """text: the content of the ILI file as written — input of Model/IliFile.v run_add_ili_text, which does the splitting into
+    lines (universal newlines) and tab-separated fields itself"""
+    inp = [project_db(before), text]
     exp = [1, project_db(after)] if outcome == 'ok' else ([-1] if outcome == 'WnError' else [-5])
     return inp, exp
 
@@ -107,8 +116,7 @@ def trace_pairs(ops, rec):
         elif op[0] == 'remove':
             out['run_remove'].append(remove_case(before, op[1], st['after'], st['outcome']))
         elif op[0] == 'ili':
-            lines = [ln.split('\t') for ln in ili_lines(op[1])]
-            out['run_add_ili'].append(ili_case(before, lines, st['after'], st['outcome']))
+            out['run_add_ili'].append(ili_case(before, op[1], st['after'], st['outcome']))
         before = st['after']
     return out
 
@@ -119,7 +127,9 @@ def run_correspondence(rep, common, pairs_by_fn, tag):
     for fn, pairs in pairs_by_fn.items():
         if not pairs:
             continue
-        mism, info = common.coq_mismatches('WnV.Model.Add', fn, 'sx_agree_default', pairs, tag=tag + fn, shard=12,
+        # the ILI file is given to the model as text (Model/IliFile.v splits it and calls Model/Add.v add_ili)
+        mod, cfn = {'run_add_ili': ('WnV.Model.IliFile', 'run_add_ili_text')}.get(fn, ('WnV.Model.Add', fn))
+        mism, info = common.coq_mismatches(mod, cfn, 'sx_agree_default', pairs, tag=tag + fn, shard=12,
                                            want_model_out=False)
         total += len(pairs)
         if info['errors']:
